@@ -61,6 +61,10 @@ Stmts == {
   St("pt",   PrintS(<<Mem(V("T"), "count", <<>>), Mem(V("T"), "at", <<I(1)>>)>>), {"T"}, {}, <<>>),
   \* a print that fails after it has written something: the text stays in the context's stream until the next completed print
   St("pd",   PrintS(<<Str("p="), Bin("/", I(1), Bin("-", V("X"), V("X")))>>), {"X"}, {}, <<>>),
+  \* the arguments of the command ($ARG is an ordinary variable of the session: `clear` removes it), a typed declaration
+  St("parg", PrintS(<<Mem(V("$ARG"), "count", <<>>)>>), {"$ARG"}, {}, <<>>),
+  St("dn",   LetN("D", TStr), {}, {}, <<<<"D", TStr>>>>),
+  St("pdn",  PrintS(<<Call("isnull", <<V("D")>>), Call("typeof", <<V("D")>>)>>), {"D"}, {}, <<>>),
   St("exc",  Begin(<<RaiseS("E1")>>, <<[w |-> "E1", b |-> <<PrintS(<<Str("handled")>>)>>]>>), {}, {}, <<>>),
   St("if",   If(Bin(">", V("X"), I(1)), <<PrintS(<<Str("big")>>)>>, <<PrintS(<<Str("small")>>)>>), {"X"}, {}, <<>>) }
 Exprs == { Ex("ex", Bin("+", V("X"), I(1)), {"X"}, {}), Ex("ef", UCall("F", <<I(2)>>), {}, {<<"F", 1>>}), Ex("ed", Bin("/", I(1), I(0)), {}, {}) }
@@ -148,9 +152,12 @@ PoolStep == [][\/ m'.pool = <<>> \/ (Len(m'.pool) >= Len(m.pool) /\ SubSeq(m'.po
 \* only `save f` writes file f
 FileStep == [][\A f \in Files : m'.files[f] # m.files[f] => hist'[Len(hist')] = [c |-> "save", f |-> f]]_cvars
 \* The names the context knows are exactly those the statements of the pool declare, in their order: whatever the history, the pool
-\* (hence every saved file) compiles on its own in a cleared session.  This is what makes `save` useful: a saved session loads.
-PoolSelfContained == ~m.unk => CompileAll(m.pool, State0).ok
-FilesSelfContained == \A f \in Files : CompileAll(m.files[f].prog, State0).ok
+\* (hence every saved file) compiles on its own in a new session.  This is what makes `save` useful: a saved session loads.
+\* (in a NEW session, which has $ARG; TLC refutes the same statement for a session emptied by `clear`: `clear` removes $ARG too, and a
+\*  saved file that reads $ARG is then refused by `load` -- MC_Cli_dev.cfg)
+PoolSelfContained == ~m.unk => CompileAll(m.pool, Ctx0).ok
+FilesSelfContained == \A f \in Files : CompileAll(m.files[f].prog, Ctx0).ok
+LoadsAfterClear == ~m.unk => CompileAll(m.pool, State0).ok
 \* a declared name is never lost while its declaring statement is in the pool
 DeclaredCovers == ~m.unk => \A i \in DOMAIN m.pool : \A j \in DOMAIN m.pool[i].defs : m.pool[i].defs[j][1] \in DOMAIN m.S.vars
 Bounded == Len(hist) <= (IF "MC_LEN" \in DOMAIN IOEnv THEN atoi(IOEnv.MC_LEN) ELSE 3)
